@@ -278,6 +278,47 @@ fn c05_literal(src: &mut Src, ctx: &mut Ctx) -> Result<(), String> {
     ctx.nontrivial(hash_of(&texts[i]));
     c05_roundtrip(&lib, false).map_err(|e| format!("[{}] {}", texts[i], e))
 }
+/// The lefrw binary (read a LEF file, write it back) must behave like open + save.
+fn c05_lefrw(src: &mut Src, ctx: &mut Ctx) -> Result<(), String> {
+    let bin = match std::env::var("VERIF_LEFRW") {
+        Ok(b) if std::path::Path::new(&b).exists() => b,
+        _ => {
+            ctx.excluded("lefrw binary not built");
+            return Ok(());
+        }
+    };
+    let lib = gen_lef(src, &LefGenOpts::default());
+    let o = render_opts(src, &lib);
+    let (txt, _) = render(&lib, src, o);
+    let inp = scratch_path("lefrw.in.lef");
+    let outp = scratch_path("lefrw.out.lef");
+    std::fs::write(&inp, &txt).map_err(|e| e.to_string())?;
+    let status = std::process::Command::new(&bin).arg(&inp).arg(&outp).stdout(std::process::Stdio::null()).stderr(std::process::Stdio::null()).status().map_err(|e| format!("cannot run lefrw: {}", e))?;
+    let written = std::fs::read_to_string(&outp).ok();
+    let _ = std::fs::remove_file(&inp);
+    let _ = std::fs::remove_file(&outp);
+    ctx.nontrivial(hash_of(&txt));
+    ctx.sample("lefrw input", || short(&txt, 600));
+    match open_text(&txt) {
+        Err(_) => {
+            if status.success() {
+                return Err(format!("lefrw exited successfully on a text the reader rejects:\n{}", short(&txt, 600)));
+            }
+            Ok(())
+        }
+        Ok(read) => {
+            if !status.success() {
+                return Err(format!("lefrw failed ({:?}) on a text the reader accepts:\n{}", status.code(), short(&txt, 600)));
+            }
+            let written = written.ok_or("lefrw succeeded without writing its output file")?;
+            let back = open_text(&written).map_err(|e| format!("lefrw output is rejected by the reader: {}\n--- written ---\n{}", short(&format!("{:?}", e), 300), short(&written, 1200)))?;
+            if back != read {
+                return Err(format!("lefrw output reads back differently; {}", first_diff(&format!("{:?}", read), &format!("{:?}", back))));
+            }
+            Ok(())
+        }
+    }
+}
 fn run_c05(run: &mut Run) {
     run.rule("The image of the reader: every library obtained by reading the rendered texts of G-lef values (versions 5.3-5.8, every construct the writer emits), plus the version-gated statements under every version (6 versions x 3 statements, exhaustive) and hand-written texts. Oracle: to_string()/save() succeed and reading the text back gives an equal library. Non-trivial = library with a site, via, extension, property definition, property, density or a pin attribute beyond direction/use; distinct by hash of the value.");
     run.assume("the layout of the written text is free; libraries outside the reader's image are not generated");
@@ -285,12 +326,14 @@ fn run_c05(run: &mut Run) {
     run.literals("literals", &(0..4u32).map(|i| vec![0, i]).collect::<Vec<_>>(), &c05_literal);
     run.enumerate("version-gated", 18, &c05_gated);
     run.explore("write-read", run.tier.pick(60_000, 600_000), 2500, &c05_case);
+    run.explore("lefrw-binary", run.tier.pick(400, 4_000), 2500, &c05_lefrw);
 }
 fn case_c05(sub: &str) -> Option<Box<CaseFn<'static>>> {
     match sub {
         "literals" => Some(Box::new(c05_literal)),
         "version-gated" => Some(Box::new(c05_gated)),
         "write-read" => Some(Box::new(c05_case)),
+        "lefrw-binary" => Some(Box::new(c05_lefrw)),
         _ => None,
     }
 }
